@@ -433,7 +433,12 @@ func loadHVtmx(hheaRaw, htmxRaw []byte, numGlyphs int) (*tables.Hhea, tables.Hmt
 		return nil, tables.Hmtx{}, err
 	}
 
-	hmtx, _, err := tables.ParseHmtx(htmxRaw, int(hhea.NumOfLongMetrics), numGlyphs-int(hhea.NumOfLongMetrics))
+	metricsCount := int(hhea.NumOfLongMetrics)
+	if metricsCount > numGlyphs {
+		return nil, tables.Hmtx{}, fmt.Errorf("invalid number of long metrics (%d) for %d glyphs", metricsCount, numGlyphs)
+	}
+
+	hmtx, _, err := tables.ParseHmtx(htmxRaw, metricsCount, numGlyphs-metricsCount)
 	if err != nil {
 		return nil, tables.Hmtx{}, err
 	}
